@@ -270,6 +270,47 @@ def route_mix(rng, tags, rounds, viol, distinct):
     return ev
 
 
+def proxy_details(viol, distinct):
+    """(e) get_attribute.proxy.read_details (built on the same pipeline): the (value, status, address, type) records of a list of attributes of
+    different types do not depend on depth / bundling"""
+    from . import netsim
+    from cpppo.server.enip.get_attribute import proxy
+    numpath = lambda c, i, a: {'segment': [{'class': c}, {'instance': i}, {'attribute': a}]}
+    tags = {'A': ('INT', 4), 'I1': ('INT', None, numpath(0x93, 3, 1)), 'D1': ('DINT', None, numpath(0x93, 3, 2)), 'R1': ('REAL', None, numpath(0x93, 3, 3)),
+            'S1': ('SINT', None, numpath(0x93, 3, 4))}
+    attrs = ['A', ('@0x93/3/1', 'INT'), ('@0x93/3/2', 'DINT'), ('@0x93/3/9', 'INT'), ('@0x93/3/3', 'REAL'), ('@0x93/3/4', 'SINT'), 'A', ('@0x93/3/2', 'DINT')]
+    ev = 0
+    ref = None
+
+    def view(recs):
+        out = []
+        for val, (sts, (att, typ, uni)) in recs:
+            tn = [getattr(t, '__name__', t) for t in typ] if isinstance(typ, (list, tuple)) else getattr(typ, '__name__', typ)
+            out.append((None if val is None else list(val), sts, str(att), tn))
+        return out
+    for depth, multiple in ((0, 0), (1, 0), (3, 0), (1, 250), (2, 500), (4, 100)):
+        ev += 1
+        distinct.add(('proxy', depth, multiple))
+        try:
+            with netsim.Server(tags) as srv:
+                from . import sim
+                lx = sim.device.lookup(0x02, 1)
+                for nm, code, v in (('I1', 0xc3, [1234]), ('D1', 0xc4, [70000]), ('R1', 0xca, [1.5]), ('S1', 0xc2, [-5]), ('A', 0xc3, [1, 2, 3, 4])):
+                    sim.write_tag(lx, nm, 0, len(v), code, v)
+                via = proxy('127.0.0.1', port=srv.port, depth=depth, multiple=multiple, timeout=3.0, identity_default=__import__('cpppo').dotdict(product_name='sim'))
+                with via:
+                    got = view(via.read_details(list(attrs)))
+        except Exception as e:
+            got = 'raised %s: %s' % (type(e).__name__, str(e)[:120])
+        if ref is None:
+            ref = got
+            if isinstance(got, str) or len(got) != len(attrs):
+                viol('proxy.read_details depth=%d multiple=%d' % (depth, multiple), repr(got)[:300], 'one record per attribute (%d)' % len(attrs))
+        elif got != ref:
+            viol('proxy.read_details depth=%d multiple=%d' % (depth, multiple), repr(got)[:300], 'the records of the unbundled, unpipelined run: %r' % (ref,))
+    return ev
+
+
 def bounded(tier, seed):
     from cpppo.server.enip import client, device
     from . import sim, netsim
@@ -359,9 +400,10 @@ def bounded(tier, seed):
             elif got != ref:
                 viol('ops=%r depth/multiple/fragment=%r' % (ops, key), repr(got)[:300], 'same statuses, values and final tags as the synchronous run: %r' % (ref,))
     ev += route_mix(rng, tags, 4 if tier == 'quick' else 20, viol, distinct)
+    ev += proxy_details(viol, distinct)
     return dict(evaluations=ev, distinct_nontrivial=len(distinct), distinct_keys=distinct_keys(distinct),
                 rule='(a) operation strings generated from a token grammar (tag / dotted tag / @c/i/a with hex, [i], [a-b], *n, +offset aligned and misaligned, (TYPE) casts, value lists '
-                     'of matching / short / long length) x fragment on/off: parse_operations == reference parser (incl. which strings must be refused); (b) format_path -> '
+                     'of matching / short / long length; (e) get_attribute.proxy.read_details over attributes of different types at several depth / bundle settings) x fragment on/off: parse_operations == reference parser (incl. which strings must be refused); (b) format_path -> '
                      'parse_path_elements round trip on generated segment lists; (c) seeded operation lists (valid, out-of-range, wrong type, multi-fragment reads) through '
                      'the real server over TCP: synchronous vs pipeline depth 1/2/5 vs Multiple Service Packet limits 100/250/500 vs fragment: one result per operation, identical '
                      'statuses, values and final tag contents; (d) operation lists with route paths changing along the list, bundled: the route_path passed to each Multiple Service Packet equals that of every operation in it; distinct = distinct cases',
